@@ -75,6 +75,7 @@ class POO(Algorithm):
 
         # Starts with a none algorithm
         self.curr_algo = None
+        self.started = False  # the first batch of learners is always created
         self.counter = 0
         self.goodx = None
 
@@ -98,7 +99,9 @@ class POO(Algorithm):
             The point chosen by the POO algorithm
         """
 
-        if self.N <= 0.5 * self.Dmax * np.log(self.n / np.log(self.n)):
+        if not self.started or self.N <= 0.5 * self.Dmax * np.log(
+            self.n / np.log(self.n)
+        ):
 
             if self.counter == 0:
                 rho = self.rhomax ** (2 * self.N / (2 * self.phase + 1))
@@ -145,7 +148,9 @@ class POO(Algorithm):
         -------
 
         """
-        if self.N <= 0.5 * self.Dmax * np.log(self.n / np.log(self.n)):
+        if not self.started or self.N <= 0.5 * self.Dmax * np.log(
+            self.n / np.log(self.n)
+        ):
             self.V_algo[-1].receive_reward(time, reward)
             self.V_reward[-1] = (self.V_reward[-1] * self.counter + reward) / (
                 self.counter + 1
@@ -163,6 +168,7 @@ class POO(Algorithm):
                 self.phase = 0
                 self.counter = 0
                 self.algo_counter = 0
+                self.started = True
         else:
             self.V_algo[self.algo_counter].receive_reward(time, reward)
             self.V_reward[self.algo_counter] = (
